@@ -137,7 +137,7 @@ class Tr:
             return self.binds(e.elts, lambda ns: "(Ok (PList [%s]))" % "; ".join(ns))
         if self.loops and isinstance(e, ast.Attribute):
             return self.binds([e.value], lambda ns: '(py_attr %s "%s")' % (ns[0], e.attr))
-        if self.loops and isinstance(e, ast.ListComp):
+        if self.loops and isinstance(e, (ast.ListComp, ast.GeneratorExp)):
             if len(e.generators) != 1 or e.generators[0].is_async or len(e.generators[0].ifs) > 1 \
                     or not isinstance(e.generators[0].target, ast.Name):
                 self.bad(e, "comprehension that is not [elt for x in e if cond]")
@@ -210,6 +210,13 @@ class Tr:
                 if isinstance(c, ast.Attribute) and isinstance(c.value, ast.Name) and c.value.id == "np" \
                         and c.attr == "ndarray":
                     return self.binds(e.args[:1], lambda ns: "(py_isinstance_ndarray %s)" % ns[0])
+                if self.loops:
+                    names = [c] if isinstance(c, ast.Name) else (list(c.elts) if isinstance(c, ast.Tuple) else [])
+                    ids = sorted(n.id for n in names if isinstance(n, ast.Name))
+                    if names and len(ids) == len(names) and ids == ["str"]:
+                        return self.binds(e.args[:1], lambda ns: "(py_isinstance_str %s)" % ns[0])
+                    if names and len(ids) == len(names) and set(ids) <= {"list", "tuple"}:
+                        return self.binds(e.args[:1], lambda ns: "(py_isinstance_list %s)" % ns[0])
                 self.bad(e, "isinstance with a class other than np.ndarray")
             if self.loops and f.id == "hasattr" and len(e.args) == 2 and not e.keywords and isinstance(e.args[1], ast.Constant) \
                     and isinstance(e.args[1].value, str):
@@ -349,10 +356,12 @@ class Tr:
             return "(bind %s (fun %s =>\n%s%s))" % (rhs, self.ident(name), pad, body)
         if isinstance(s, ast.If):
             vs = self.assigned(s.body) + [x for x in self.assigned(s.orelse) if x not in self.assigned(s.body)]
+            both = []
             if self.loops:
-                vs = [v for v in vs if v in self.env]      # first assigned inside a branch: local to it
+                both = [v for v in self.assigned(s.body) if v in self.assigned(s.orelse) and v not in self.env]
+                vs = [v for v in vs if v in self.env or v in both]      # first assigned inside ONE branch: local to it
             for v in vs:
-                if v not in self.env:
+                if v not in self.env and v not in both:
                     self.bad(s, "variable %r first assigned inside an if" % v)
             cond = self.expr(s.test)
             if rest:
@@ -360,6 +369,7 @@ class Tr:
                 params = " ".join("(%s : pv)" % self.ident(v) for v in vs) or "(_ : unit)"
                 kcall = "(%s %s)" % (kn, " ".join(self.ident(v) for v in vs) or "tt")
                 env0 = set(self.env)
+                self.env = env0 | set(both)
                 rest_t = self.block(rest, k, ind + 1)
                 self.env = set(env0)
                 a = self.block(s.body, kcall, ind + 1)
@@ -412,11 +422,24 @@ class Tr:
             head = "fun %s %s => %sbind (py_unpack2 %s) (fun %s => let '(%s, %s) := %s in " % (
                 x, st, unpack(st), x, pr, self.ident(tnames[0]), self.ident(tnames[1]), pr)
             body += ")"
+        loop_fn = "(%s\n%s    %s)" % (head, pad, body)
+        if outer_retw is None:
+            # a loop at function level: its body becomes a definition of its own (fname_loopK), with the statement
+            # "what an iteration does is independent of the state the previous iterations left behind" next to it
+            self.nloops += 1
+            lname = "%s_loop%d" % (self.ident(self.cur), self.nloops)
+            envs = sorted(saved_env)
+            sty = "unit" if not carried else ("pv" if len(carried) == 1 else "(%s)%%type" % " * ".join("pv" for _ in carried))
+            ps = " ".join(self.ident(v_) for v_ in envs)
+            self.lifted.append("(* loop over `%s`, carried from one iteration to the next: [%s] *)\nDefinition %s (%s : pv) : pv -> %s -> res (step %s) :=\n  %s%s.\n"
+                               "Definition %s_fresh : Prop := forall (%s x_ : pv) (s1_ s2_ : %s), %s %s x_ s1_ = %s %s x_ s2_.\n"
+                               % (ast.unparse(s.iter), ", ".join(carried), lname, ps, sty, sty, self.uses_all(), loop_fn, lname, ps, sty, lname, ps, lname, ps))
+            loop_fn = "(%s %s)" % (lname, ps)
         after = self.block(rest, k, ind + 1)
         v = self.fresh("t")
         ret_branch = outer_retw("(Ok %s)" % v) if outer_retw else "(Ok %s)" % v
-        return ("(bind (bind %s py_iter) (fun %s =>\n%sbind (py_for %s %s (%s\n%s    %s)) (fun %s =>\n%smatch %s with\n%s| Ret %s => %s\n%s| Cont %s => %s%s\n%send)))"
-                % (it, l, pad, l, tup(), head, pad, body, r, pad, r, pad, v, ret_branch, pad, st, unpack(st), after, pad))
+        return ("(bind (bind %s py_iter) (fun %s =>\n%sbind (py_for %s %s %s) (fun %s =>\n%smatch %s with\n%s| Ret %s => %s\n%s| Cont %s => %s%s\n%send)))"
+                % (it, l, pad, l, tup(), loop_fn, r, pad, r, pad, v, ret_branch, pad, st, unpack(st), after, pad))
 
     def function(self, name):
         d = self.defs[name]
@@ -424,19 +447,45 @@ class Tr:
         if a.vararg or a.kwarg or a.kwonlyargs or a.posonlyargs:
             self.bad(d, "parameter kind")
         for dflt in a.defaults:
-            if not isinstance(dflt, ast.Constant):
+            if not isinstance(dflt, ast.Constant) and not self.loops:
                 self.bad(dflt, "default value")
         self.cur = name
+        self.nloops = 0
+        self.lifted = []
         self.env = {x.arg for x in a.args}
         body = self.block(d.body, "(Ok PNone)", 1)
         params = " ".join(self.ident(x.arg) for x in a.args)
-        return "(* %s:%d *)\nDefinition %s (%s : pv) : res pv :=\n  %s.\n" % (
-            self.filename.split("/")[-1], d.lineno, self.ident(name), params, body)
+        return "".join(self.lifted) + "(* %s:%d *)\nDefinition %s (%s : pv) : res pv :=\n  %s%s.\n" % (
+            self.filename.split("/")[-1], d.lineno, self.ident(name), params, self.uses_all(), body)
+
+    def uses_all(self):
+        """in loops mode every definition mentions every section variable, so that all of them take the same parameters
+        after the section is closed"""
+        if not self.loops:
+            return ""
+        return "let _ := (ext%s) in " % "".join(", " + self.ident(k_) for k_ in sorted(self.known))
 
 
 def translate(source_path, funcs, module_name="GenFilter", loops=False, known=(), requires=()):
     src = open(source_path).read()
     tree = ast.parse(src, source_path)
+    if "keep_rg" in funcs:
+        # the OR / AND structure of filter_row_groups: the `any([...])` expression that decides about ONE row group (it occurs
+        # twice, for as_idx True / False; both occurrences must be the same) as a function keep_rg(rg, filters, pf) of its own
+        frg = [n for n in tree.body if isinstance(n, ast.FunctionDef) and n.name == "filter_row_groups"]
+        anys = [n for n in ast.walk(frg[0]) if isinstance(n, ast.Call) and isinstance(n.func, ast.Name) and n.func.id == "any"] if frg else []
+        if not anys or len({ast.dump(n) for n in anys}) != 1:
+            raise Unsupported("%s: filter_row_groups: expected the same any([...]) decision once per return, found %d different" % (
+                source_path, len({ast.dump(n) for n in anys})))
+        free = {n.id for n in ast.walk(anys[0]) if isinstance(n, ast.Name)} - {"any", "not", "filter_out_stats", "filter_out_cats"}
+        bound = {g.target.id for n in ast.walk(anys[0]) if isinstance(n, (ast.ListComp, ast.GeneratorExp)) for g in n.generators
+                 if isinstance(g.target, ast.Name)}
+        if not (free - bound) <= {"rg", "filters", "pf"}:
+            raise Unsupported("%s: filter_row_groups: the row-group decision reads %s" % (source_path, sorted(free - bound)))
+        fn = ast.parse("def keep_rg(rg, filters, pf):\n    return 0\n").body[0]
+        fn.body[0].value = anys[0]
+        fn.lineno = anys[0].lineno
+        tree.body.append(ast.fix_missing_locations(fn))
     tr = Tr(tree, source_path, funcs, known=known, loops=loops)
     texts = {f: tr.function(f) for f in funcs}
     # topological order by calls
